@@ -107,7 +107,7 @@ def run(chk):
     # ---- R3
     allowed = {
         "cache": lambda p, res: p in (f"{res}.partition_by", f"{res}.derived_from"),
-        "polars": lambda p, res: p in ("partition_by", "new_group_by"),
+        "polars": lambda p, res: p in ("partition_by",),
         "sql": lambda p, res: p in ("query.partition_by",),
     }
     for name in ("cache", "polars", "sql"):
@@ -118,6 +118,15 @@ def run(chk):
             v = sym.cls(vname)
             items = Slicer(sym, cfg.module, cfg.subject, v).slice(cfg.func.body)
             extra = _assigned_paths(items) - base
+            # only the sibling's *state* counts (the cache object's fields / the components the compiler returns);
+            # other assignments are temporaries of the slice
+            if name == "cache":
+                extra = {p for p in extra if p.startswith(res + ".")}
+            else:
+                from ..siblings import _return_positions
+
+                state_names = {n for n in _return_positions(cfg.func) if n}
+                extra = {p for p in extra if p.split(".")[0] in state_names}
             if vname == "Alias" and name == "cache":
                 # with a uuid_map the alias renames identities (C16); it must not touch anything else
                 bad = {p for p in extra if p.split(".")[-1] not in ("name_to_uuid", "uuid_to_name", "cols", "partition_by", "derived_from")}
@@ -178,10 +187,19 @@ def run(chk):
            len(fc) == 1 and _filter_gen_ok(fc[0], pcfg.subject),
            "the Polars filter does not keep exactly the rows where all predicates of the verb hold")  # fmt: skip
     items = Slicer(sym, sql, scfg.subject, fl).slice(scfg.func.body)
-    ext = [c for st, _ in flat(items) for c in calls_in(st) if isinstance(c.func, ast.Attribute) and c.func.attr == "extend"]
+    from ..flags import Unsupported as _Uns, filter_destinations
+
+    f_stmts = [it.node if isinstance(it, Cond) else it for it in items]
+    dests = []
+    try:
+        # explore both placements: every boolean field of the query state symbolic
+        dests = filter_destinations(f_stmts, "query", scfg.subject, {"query.where": [], "query.having": []})
+    except _Uns as u:
+        raise AnalysisError(f"C02/R6: cannot evaluate the SQL Filter slice: {u}") from u
+    seen = set().union(*dests) if dests else set()
     chk.ob("R6", sql, scfg.func, "sql Filter: predicates appended to WHERE / HAVING",
-           bool(ext) and all(norm(c.args[0]) == f"{scfg.subject}.predicates" for c in ext) and {norm(c.func.value) for c in ext} == {"query.where", "query.having"},
-           "the SQL filter does not append exactly the verb's predicates to WHERE / HAVING")  # fmt: skip
+           bool(dests) and all(len(d) == 1 for d in dests) and seen <= {"query.where", "query.having"} and "query.where" in seen,
+           f"the SQL filter does not append exactly the verb's predicates to WHERE / HAVING (destinations per path: {[sorted(d) for d in dests]})")  # fmt: skip
     wh = [c for c in calls_in(cq) if isinstance(c.func, ast.Attribute) and c.func.attr in ("where", "having")]
     chk.ob("R6", sql, cq, "compile_query: WHERE gets query.where, HAVING gets query.having",
            {c.func.attr: ("query." + c.func.attr in norm(c)) for c in wh} == {"where": True, "having": True},
